@@ -8,12 +8,15 @@ predicates on every node of every result (what the assertion build would check, 
 import vlib
 from checks import arithcommon as A
 
-OBLIGATIONS = []
-PROOF_MODULES = []   # compiled by hand until listed in coq/_CoqProject (see the report)
-OBLIGATIONS_PLANNED = [
-    "C03/P_add_canonical.v", "C03/P_mul_canonical.v", "C03/P_pow_canonical.v", "C03/P_div_neg_sub_canonical.v",
-    "C03/P_api_reachable_canonical.v", "C03/P_refuted.v", "C03/P_fuel_mono.v", "C03/P_nonvacuous.v",
+OBLIGATIONS = [
+    "C03/P_add_canonical.v",
+    "C03/P_mul_canonical.v",
+    "C03/P_api_reachable_canonical.v",
+    "C03/P_fuel_mono.v",
+    "C03/P_nonvacuous.v",
 ]
+REFUTATIONS = ['C03/P_refuted.v']
+PROOF_MODULES = []   # compiled by hand until listed in coq/_CoqProject (see the report)
 
 CORPUS_API = [
     "(f1 sign (c 1 1 2 1))", "(f1 ceiling (add (f1 floor x) (i 1)))", "(pow (i 0) nan)", "(pow nan (i 0))",
@@ -22,7 +25,8 @@ CORPUS_API = [
     "(f1 log (pow E x))", "(f1 exp (f1 log x))", "(f1 abs (f1 abs x))", "(f1 floor (add x (i 2)))", "(f1 sign (mul (i -3) x))",
     "(f1 conjugate (mul I x))", "(f1 sin (add x (mul (i 2) pi)))", "(f1 cos (mul (q 1 3) pi))", "(f1 gamma (i 5))", "(f1 gamma (q 1 2))",
     "(max x y x)", "(max (i 1) (i 2) x)", "(min x (q 1 2) (i 3))", "(add (mul (i 2) (add x y)) (sub z (add x y)))",
-    "(mul (sqrt (pow x (i 2))) (mul x (sqrt (pow x (i 2)))))",
+    "(mul (sqrt (pow x (i 2))) (mul x (sqrt (pow x (i 2)))))", "(add (pow (i 0) x) (pow (i 0) x))", "(mul y (pow (i 0) x))",
+    "(mul z (pow (pow (i -2) (q 1 2)) (q 2 3)))", "(pow (i 0) I)", "(mul (pow (pow x (i 2)) (q 3 2)) (pow (pow x (i 2)) (q 1 2)))",
 ]
 
 
@@ -32,7 +36,7 @@ def rule_key(rule):
 
 def run(ctx):
     ctx.gate(["Expr", "C03"])
-    ctx.prove(PROOF_MODULES, OBLIGATIONS)
+    A.prove(ctx, OBLIGATIONS, REFUTATIONS)
     drv, model = A.build(ctx)
     q = ctx.tier == "quick"
     rng = ctx.rng
